@@ -13,8 +13,8 @@ fn render(doc: &[String], rng: &mut Rng) -> String {
         let alts: &[&str] = match c.as_str() {
             "a" => &["a", "Z", " ", "\t", "_", "0"],
             "nl" => &["\n"],
-            "c2" => &["ß", "é", "\u{80}", "\u{7ff}"],
-            "c3" => &["ℝ", "中", "\u{800}", "\u{ffff}"],
+            "c2" => &["ß", "é", "\u{80}", "\u{7ff}", "\u{a0}"],
+            "c3" => &["ℝ", "中", "\u{800}", "\u{ffff}", "\u{feff}", "\u{2028}"],
             "c4" => &["💣", "𝒳", "\u{10000}", "\u{10ffff}"],
             other => panic!("unknown char class {other}"),
         };
